@@ -568,6 +568,8 @@ class FuncTranslator:
             cur = j if j is not None else TSum(cur, t)
         if cur is None:
             return NONE
+        if isinstance(cur, TNum):
+            cur = Z          # a function returning only integer literals returns an int
         if has_none and not isinstance(cur, TOpt):
             cur = TOpt(cur)
         return cur
@@ -682,9 +684,10 @@ class FuncTranslator:
 
     def fixed_list(self, name):
         """is `name` used in this function only through constant subscripts (a fixed-size record)?"""
-        for n in ast.walk(self.fn):
+        scope = getattr(self, 'scope_fn', None) or self.fn
+        for n in ast.walk(scope):
             if isinstance(n, ast.Name) and n.id == name:
-                par = self.parents().get(id(n))
+                par = self.parents(scope).get(id(n))
                 if isinstance(par, ast.Subscript) and par.value is n and isinstance(par.slice, ast.Constant) \
                         and isinstance(par.slice.value, int):
                     continue
@@ -696,13 +699,17 @@ class FuncTranslator:
                 return False
         return True
 
-    def parents(self):
+    def parents(self, scope=None):
+        scope = scope or self.fn
         if not hasattr(self, '_parents'):
             self._parents = {}
-            for p in ast.walk(self.fn):
+        if id(scope) not in self._parents:
+            d = {}
+            for p in ast.walk(scope):
                 for c in ast.iter_child_nodes(p):
-                    self._parents[id(c)] = p
-        return self._parents
+                    d[id(c)] = p
+            self._parents[id(scope)] = d
+        return self._parents[id(scope)]
 
     def as_load(self, t):
         t2 = ast.parse(ast.unparse(t), mode='eval').body
@@ -813,12 +820,12 @@ class FuncTranslator:
             pp, env_in = self.bind(p, v, env_in)
             pre += pp
         live = [n for n in assigned_names(body) if n.startswith('self.')]
-        saved = self.mod
-        self.mod = mod
+        saved, saved_scope = self.mod, getattr(self, 'scope_fn', None)
+        self.mod, self.scope_fn = mod, fn
         try:
             s_, env_out = self.branch_tuple(body, env_in, live)
         finally:
-            self.mod = saved
+            self.mod, self.scope_fn = saved, saved_scope
         env2 = dict(env)
         for k, v in env_out.items():
             if k.startswith('self.'):
@@ -893,14 +900,14 @@ class FuncTranslator:
                     self.fail(st, 'missing base init argument')
                 pp, env_in = self.bind(p, v, env_in)
                 pre += pp
-            saved_mod = self.mod
-            self.mod = mod
+            saved_mod, saved_scope = self.mod, getattr(self, 'scope_fn', None)
+            self.mod, self.scope_fn = mod, fn
             try:
                 body = [b for b in fn.body]
                 live = [n for n in assigned_names(body) if n.startswith('self.')]
                 s_, env_out = self.branch_tuple(body, env_in, live)
             finally:
-                self.mod = saved_mod
+                self.mod, self.scope_fn = saved_mod, saved_scope
             env2 = dict(env)
             for k, v in env_out.items():
                 if k.startswith('self.'):
@@ -1464,7 +1471,9 @@ class FuncTranslator:
                 if v.parts:
                     return v.parts[i]
                 return Val("(let '(%s) := %s in x_)" % (', '.join(names), v.s), v.t.ts[i])
-            self.fail(e, 'tuple index')
+            lst = self.tuple_to_list(v)
+            i = self.expr(sl, env)
+            return Val('py_nth %s %s %s' % (paren(lst.s), paren(self.coerce(i, Z)), default_of(lst.t.t)), lst.t.t)
         if isinstance(v.t, TObj) and CLASSES.is_subclass(v.t.cls, 'Vector2D') or \
                 isinstance(v.t, TObj) and CLASSES.is_subclass(v.t.cls, 'Vector3D'):
             if isinstance(sl, ast.Constant) and isinstance(sl.value, int):
@@ -1769,6 +1778,22 @@ class FuncTranslator:
             for a in args[1:]:
                 s = '(%s %s %s)' % (f, s, paren(self.coerce(a, Q)))
             return Val(s, Q)
+        if name in ('min', 'max') and len(args) == 1 and isinstance(args[0].t, TTup):
+            f = 'Qmin' if name == 'min' else 'Qmax'
+            parts = args[0].parts
+            if parts is None:
+                n = len(args[0].t.ts)
+                nm = ['t%d_' % i for i in range(n)]
+                inner = nm[0]
+                for x in nm[1:]:
+                    inner = '(%s %s %s)' % (f, inner, x)
+                return Val("(let '(%s) := %s in %s)" % (', '.join(nm), args[0].s, inner), Q)
+            s_ = paren(self.coerce(parts[0], Q))
+            for a in parts[1:]:
+                s_ = '(%s %s %s)' % (f, s_, paren(self.coerce(a, Q)))
+            return Val(s_, Q)
+        if name in ('min', 'max') and len(args) == 1 and isinstance(args[0].t, TLst) and isinstance(args[0].t.t, (TQ, TNum)):
+            return Val('py_%s_list %s' % (name, paren(args[0].s)), Q)
         if name == 'float' and len(args) == 1:
             return Val(self.coerce(args[0], Q), Q)
         if name == 'len' and len(args) == 1:
